@@ -63,8 +63,9 @@ prop("C17", level="proof", runtime=True,
                   "eps_equals_shift uses the existence of a minimal reference point (finite strict partial order; Mathlib lemma "
                   "Finite.wellFounded_of_trans_of_irrefl + WellFounded.has_min), stated as a hypothesis of the lemma"],
      not_decided=["generational distance gd(): scipy cdist / numpy reductions are outside the subset: bounded run-time contract only",
-                  "sorted listings (sort_list + independent sort: 'two sorted permutations of one multiset agree'), table(), "
-                  "parameters(), costs(), pareto_front(): not under contract"])
+                  "sorted listings (goal_on_parameter sorted, parameter_on_goal, parameter_on_parameter), goal_on_index, parameter_on_index, "
+                  "parameters(), costs(), pareto_front(), pareto_individuals(): bounded run-time contracts against an independent reading "
+                  "(sorted(), zip and dict views are outside the subset); table(), export_to_csv(), performance_measure(): not under contract"])
 prop("C15", level="other", runtime=True,
      explanation="Partial: for 12 benchmark functions (Sphere, Rosenbrock, Rastrigin, Zakharov, Alpine, Griewank, Booth, Xin-She-Yang 1 and 3, "
                  "Ackley, ModifiedEasom, SixHump) the three clauses (one real cost; nothing in the box is better than the documented "
@@ -145,7 +146,8 @@ prop("C10", level="other", runtime=True,
      explanation="Partial. Proved deductively against an abstract model of sqlite3 (a connection counts the statements executed "
                  "since its last commit): sync_individual executes exactly the upsert statement `INSERT ... ON CONFLICT(id) DO UPDATE "
                  "SET individual=excluded.individual` (text read from the real class constant) for the individual's id and current "
-                 "document and commits it before returning, also on the retry path; sync_all executes one upsert per recorded "
+                 "document and commits it before returning, also on the retry path and in both connection modes (a fresh connection per call "
+                 "in the default thread-safe mode, one cached connection otherwise); sync_all executes one upsert per recorded "
                  "individual, in order, followed by one commit. NOT proved: what json and SQLite do with the documents. The round trip "
                  "(problem definition, vectors, costs, signed costs, population id, custom data, feature values; finite floats "
                  "bit-exact, infinities, numpy scalars, individuals inside feature values, re-synchronised ids: last wins, one row per "
